@@ -970,24 +970,29 @@ class Runner:
                 ok = bool(np.allclose(np.asarray(out, dtype=float), exp, rtol=1e-9, atol=0, equal_nan=True))
             return canon, ok
         kde = getattr(inner, '_model', None) if inner is not None else None
-        overridden = inner is not None and METHOD[kind] in vars(inner)
+        # GaussianKDE.log_probability_density (since the F12 fix) is the log of self.probability_density, which an
+        # instance-level override may shadow
+        is_kde_inner = inner is not None and type(inner).__name__ == 'GaussianKDE'
+        overridden = inner is not None and (METHOD['pdf' if (kind == 'logpdf' and is_kde_inner) else kind] in vars(inner))
         if kde is not None and hasattr(kde, '_vf_args') and not overridden:
             ds, bw, w = kde._vf_args
             bounds = _points(jsonable(inner._params['dataset'])) if kind in ('cdf', 'ppf') else None
             canon = ('kde', kind, _points(ds), bw, w, bounds)
             ok = None
-            if kind in ('pdf', 'cdf'):
+            if kind in ('pdf', 'cdf', 'logpdf'):
                 from scipy import stats
                 from scipy.special import ndtr
                 ref = stats.gaussian_kde(np.asarray(ds, dtype=float), bw_method=bw, weights=None if w is None else np.asarray(w))
                 if kind == 'pdf':
                     exp = ref.evaluate(X)
+                elif kind == 'logpdf':
+                    exp = np.log(ref.evaluate(X))
                 else:
                     D = np.asarray(inner._params['dataset'], dtype=float)
                     sd = np.sqrt(ref.covariance[0, 0])
                     lower = ndtr((np.min(D) - 5 * np.std(D) - ref.dataset) / sd)[0]
                     exp = (ndtr((X[:, None] - ref.dataset) / sd) - lower).dot(ref.weights)
-                ok = bool(np.allclose(np.asarray(out, dtype=float), exp, rtol=1e-9, atol=1e-12))
+                ok = bool(np.allclose(np.asarray(out, dtype=float), exp, rtol=1e-9, atol=1e-12, equal_nan=True))
             return canon, ok
         # degenerate behaviour: decided by VALUE
         if c is not None and not scalar_c:
@@ -1002,6 +1007,9 @@ class Runner:
             ok = c is not None and out.shape == UNI_PROBES_U.shape and np.all(out == c)
         elif kind == 'sample':
             ok = c is not None and out.shape == (n,) and np.all(out == c)
+        elif kind == 'logpdf' and is_kde_inner:
+            with np.errstate(divide='ignore'):
+                ok = c is not None and np.array_equal(out, np.log((X == c).astype(float)))
         else:
             ok = False
         return ('const', kind, None if c is None else float(c)), bool(ok)
